@@ -182,7 +182,7 @@ CHECKS["C11"] = {
         {"pkg": _SS, "run": "^TestVerif_C11_", Q: {"timeout": 600}, T: {"timeout": 3400, "shards": 12}},
         {"pkg": _SS, "run": "^TestVerifCtl_C11_", "inst": ["pkg/secretstore/device_keystore_wrapper.go"], Q: {"timeout": 600}, T: {"timeout": 3400, "shards": 8}},
     ],
-    "mandatory_labels": {"all": ["derive/first-use-before-import", "import/refused", "import/accepted", "import/pre=proof-key", "import/pre=member-device", "import/blob=equal", "import/blob=rsa-account", "concurrent/dfs-schedules"]},
+    "mandatory_labels": {"all": ["derive/first-use-before-import", "import/refused", "import/accepted", "import/pre=proof-key", "import/pre=member-device", "import/blob=equal", "import/blob=rsa-account", "concurrent/dfs-schedules", "read-fault/fired"]},
 }
 
 CHECKS["C14"] = {
@@ -342,7 +342,7 @@ CHECKS["C19"] = {
          "site_re": r"^(berty\.tech/weshnet/v2[^\s(]*)\("},
     ],
     "mandatory_labels": {"all": ["sequences/call-after-account-group-deactivation", "calls/succeeded", "helpers", "decoders",
-                                 "method/ContactBlock", "method/DecodeContact", "method/GroupMetadataList", "method/ServiceExportData", "listing-rpc/both-bounds-real", "argumentless-sequences"]},
+                                 "method/ContactBlock", "method/DecodeContact", "method/GroupMetadataList", "method/ServiceExportData", "listing-rpc/both-bounds-real", "argumentless-sequences", "repeated-calls"]},
 }
 
 CHECKS["C20"] = {
